@@ -1,0 +1,85 @@
+//go:build verif
+// +build verif
+
+package nutsdb
+
+// Accessors used only by the verification harness (build tag `verif`).
+// They expose unexported fields read-only and construct records with
+// arbitrary field values; they add no behaviour to the library.
+
+// VerifID returns the transaction id.
+func (tx *Tx) VerifID() uint64 { return tx.id }
+
+// VerifPending returns the number of pending writes of the transaction.
+func (tx *Tx) VerifPending() int { return len(tx.pendingWrites) }
+
+// VerifFields lists the header fields of an entry.
+type VerifFields struct {
+	Bucket, Key, Value []byte
+	Timestamp          uint64
+	TTL                uint32
+	Flag, Status, Ds   uint16
+	TxID               uint64
+}
+
+// VerifNewEntry builds an entry with exactly the given fields.
+func VerifNewEntry(f VerifFields) *Entry {
+	return &Entry{
+		Key:   f.Key,
+		Value: f.Value,
+		Meta: &MetaData{
+			keySize:    uint32(len(f.Key)),
+			valueSize:  uint32(len(f.Value)),
+			timestamp:  f.Timestamp,
+			TTL:        f.TTL,
+			Flag:       f.Flag,
+			bucket:     f.Bucket,
+			bucketSize: uint32(len(f.Bucket)),
+			txID:       f.TxID,
+			status:     f.Status,
+			ds:         f.Ds,
+		},
+	}
+}
+
+// VerifEntryFields returns the fields of an entry.
+func VerifEntryFields(e *Entry) VerifFields {
+	return VerifFields{
+		Bucket: e.Meta.bucket, Key: e.Key, Value: e.Value,
+		Timestamp: e.Meta.timestamp, TTL: e.Meta.TTL, Flag: e.Meta.Flag,
+		Status: e.Meta.status, Ds: e.Meta.ds, TxID: e.Meta.txID,
+	}
+}
+
+// VerifNewRootIdx builds a root-index record.
+func VerifNewRootIdx(fID, rootOff uint64, start, end []byte) *BPTreeRootIdx {
+	return &BPTreeRootIdx{fID: fID, rootOff: rootOff, start: start, end: end,
+		startSize: uint32(len(start)), endSize: uint32(len(end))}
+}
+
+// VerifRootIdxFields returns the fields of a root-index record.
+func VerifRootIdxFields(b *BPTreeRootIdx) (fID, rootOff uint64, start, end []byte) {
+	return b.fID, b.rootOff, b.start, b.end
+}
+
+// VerifNewBucketMeta builds a bucket-meta record.
+func VerifNewBucketMeta(start, end []byte) *BucketMeta {
+	return &BucketMeta{start: start, end: end, startSize: uint32(len(start)), endSize: uint32(len(end))}
+}
+
+// VerifBucketMetaFields returns the fields of a bucket-meta record.
+func VerifBucketMetaFields(b *BucketMeta) (start, end []byte) { return b.start, b.end }
+
+// VerifNewHint builds a hint for direct BPTree insertion.
+func VerifNewHint(key []byte, fileID int64, dataPos uint64, flag uint16, ttl uint32, ts uint64) *Hint {
+	return &Hint{key: key, fileID: fileID, dataPos: dataPos,
+		meta: &MetaData{Flag: flag, TTL: ttl, timestamp: ts}}
+}
+
+// VerifRecordKey returns the key, flag and position stored in a record.
+func VerifRecordKey(r *Record) (key []byte, flag uint16, fileID int64, dataPos uint64) {
+	return r.H.key, r.H.meta.Flag, r.H.fileID, r.H.dataPos
+}
+
+// VerifIsMerging reports the isMerging flag.
+func (db *DB) VerifIsMerging() bool { return db.isMerging }
